@@ -387,6 +387,29 @@ pub fn mutated_text(rng: &mut Rng) -> Vec<u8> {
     }
     t
 }
+/// long texts: runs and offsets beyond what fits 8 (thorough: 16) bits, in each field and in the
+/// ignored tail after the comma; an error placed far into the text
+pub fn long_texts(thorough: bool) -> Vec<Vec<u8>> {
+    let lens: &[usize] = if thorough { &[254, 255, 256, 257, 258, 511, 512, 513, 1000, 65534, 65535, 65536, 65537, 70000] } else { &[255, 256, 257, 300] };
+    let mut out = vec![];
+    for &ln in lens {
+        let run = vec![b'A'; ln];
+        let alt: Vec<u8> = (0..ln).map(|i| B64[(i / 3) % 64]).collect(); // normalised already, too long
+        out.extend([
+            [b"3:".as_ref(), &run, b":"].concat(),
+            [b"3::".as_ref(), &run].concat(),
+            [b"3:".as_ref(), &run, b":", &run, b",", &run].concat(),
+            [b"3:AB:CD,".as_ref(), &run, b":!"].concat(),
+            [b"3:".as_ref(), &run, b"!"].concat(),
+            [b"3:".as_ref(), &run, b":", &run, b"!"].concat(),
+            [b"3:".as_ref(), &alt, b":"].concat(),
+            [b"3:ABC:".as_ref(), &run, b"BCD", &run, b"E"].concat(),
+            [b"6:x".as_ref(), &run, b"y:", &vec![b'B'; ln], b"z"].concat(),
+            [b"3".as_ref(), &vec![b'0'; ln], b":A:B"].concat(),
+        ]);
+    }
+    out
+}
 pub fn drive_parse(a: &Args, thorough: bool) {
     let mut sh = Shards::new(&a.out, "obj_parse", a.shards);
     let mut rng = Rng::new(a.seed ^ 0x8888);
@@ -431,6 +454,12 @@ pub fn drive_parse(a: &Args, thorough: bool) {
             sh.next_unit();
         }
         ev_parse(&mut sh, t);
+        n += 1;
+    }
+    // (b'') long texts: runs and offsets beyond what fits 8 (thorough: 16) bits
+    for t in long_texts(thorough) {
+        sh.next_unit();
+        ev_parse(&mut sh, &t);
         n += 1;
     }
     // (c) byte-level mutations of accepted texts (incl. generator output)
@@ -671,6 +700,13 @@ pub fn drive_norm(a: &Args, thorough: bool) {
         ev_norm(&mut sh, &H { k: (i % 31) as u8, a: v.clone(), b: other.clone() });
         ev_norm(&mut sh, &H { k: (i % 31) as u8, a: other.clone(), b: v.clone() });
         n += 2;
+    }
+    // the text route into the normalising types is the only route that can see a run longer than a
+    // raw hash can hold: long texts as parse events (the result must be the run-collapsed hash)
+    for t in long_texts(thorough) {
+        sh.next_unit();
+        ev_parse(&mut sh, &t);
+        n += 1;
     }
     // block hash 2 longer than the short capacity raw, but 31 / 32 symbols after run collapsing
     for nlen in [31usize, 32] {
@@ -943,8 +979,49 @@ pub fn ev_dualord(sh: &mut Shards, fam: &[H]) {
 /// families of raw hashes sharing one normalised part (different run lengths), plus the normalised
 /// hash itself, a duplicate and sometimes a member with another normalised part: full matrices of
 /// cmp / partial_cmp / == / Hash over their dual hashes ("equal iff the raw hashes are equal")
+/// deterministic "ladders": (1) every block size index once, block hash contents running AGAINST
+/// the block size order (so any key that loses part of the index shows); (2) one long string changed
+/// at one position per member, the remainder running against that change (so any comparison that
+/// looks at a bounded prefix, or skips a position, shows)
+pub fn ladders(rng: &mut Rng) -> Vec<Vec<H>> {
+    let mut out = vec![];
+    for dir in 0..2u8 {
+        let mut fam = vec![];
+        for k in 0..31u8 {
+            let c = if dir == 0 { 63 - 2 * k } else { 2 * k };
+            let b: Vec<u8> = (0..rng.range(0, 5)).map(|_| rng.below(64) as u8).collect();
+            fam.push(H { k, a: vec![c, c, (c + 1) % 64, 7], b });
+        }
+        out.push(fam);
+    }
+    for which in 0..2u8 {
+        let cap = if which == 0 { 64 } else { 32 };
+        let base: Vec<u8> = (0..cap).map(|i| (10 + (i * 7) % 40) as u8).collect();
+        let mut fam = vec![H { k: 5, a: if which == 0 { base.clone() } else { vec![1, 2, 3] }, b: if which == 1 { base.clone() } else { vec![4] } }];
+        for &p in &[0usize, 1, 5, 9, 10, 11, 15, 16, 20, 31, 32, 33, 47, 62, 63] {
+            if p >= cap {
+                continue;
+            }
+            for up in [true, false] {
+                let mut v = base.clone();
+                v[p] = if up { v[p] + 1 } else { v[p] - 1 };
+                for q in (p + 1)..cap {
+                    v[q] = if up { 0 } else { 63 }; // the tail pulls the other way
+                }
+                fam.push(if which == 0 { H { k: 5, a: v, b: vec![4] } } else { H { k: 5, a: vec![1, 2, 3], b: v } });
+            }
+        }
+        out.push(fam);
+    }
+    out
+}
 pub fn dual_families(sh: &mut Shards, rng: &mut Rng, count: usize) -> u64 {
     let mut n = 0u64;
+    for fam in ladders(rng) {
+        sh.next_unit();
+        ev_dualord(sh, &fam);
+        n += 1;
+    }
     for f in 0..count {
         sh.next_unit();
         let al = alphabet(rng);
@@ -972,7 +1049,15 @@ pub fn dual_families(sh: &mut Shards, rng: &mut Rng, count: usize) -> u64 {
                 }
                 o
             };
-            let m = if f % 5 == 0 && rng.chance(1, 4) {
+            let m = if f % 3 == 1 && rng.chance(1, 3) {
+                // another block size (any distance, incl. +-16), same or related contents
+                let k2 = match rng.below(4) {
+                    0 => k ^ 16,
+                    1 => (k + 1) % 31,
+                    _ => rng.below(31) as u8,
+                } % 31;
+                H { k: k2, a: if rng.chance(1, 2) { base_a.clone() } else { related(rng, &base_a, 64, &al) }, b: base_b.clone() }
+            } else if f % 5 == 0 && rng.chance(1, 4) {
                 H { k, a: related(rng, &base_a, 64, &al), b: base_b.clone() } // a different normalised part
             } else {
                 H { k, a: ext(rng, &base_a, 64), b: ext(rng, &base_b, 64) }
@@ -1051,6 +1136,16 @@ pub fn drive_ord(a: &Args, thorough: bool) {
         }
         ev_ord(&mut sh, &x, &y, n);
         n += 1;
+    }
+    // the ladders (see ladders()) for the plain types: all ordered pairs, each type in rotation
+    for fam in ladders(&mut rng) {
+        for x in &fam {
+            sh.next_unit();
+            for y in &fam {
+                ev_ord(&mut sh, x, y, n);
+                n += 1;
+            }
+        }
     }
     // dual families
     n += dual_families(&mut sh, &mut rng, if thorough { 3000 } else { 60 });
